@@ -279,8 +279,8 @@ class Case:
             s = P['sets'][it['i'] - 1]
             if s['pkg'] != frompkg:
                 used.add(s['pkg'])
-                return s['pkg'] + '.' + s['name']
-            return s['name']
+                return self.alias(s['pkg']) + '.' + self.nm(s['name'])
+            return self.nm(s['name'])
         l = P['leaves'][it['i'] - 1]
         k = l['k']
         if k == 'func':
@@ -318,9 +318,9 @@ class Case:
             init = 'wire.NewSet(%s)' % ', '.join(items)
             g = s.get('grp') or ''
             if g:
-                groups.setdefault(g, []).append((s['name'], init))
+                groups.setdefault(g, []).append((self.nm(s['name']), init))
             else:
-                body.append('var %s = %s\n' % (s['name'], init))
+                body.append('var %s = %s\n' % (self.nm(s['name']), init))
         for g, lst in groups.items():
             body.append('var %s = %s\n' % (', '.join(n for n, _ in lst), ', '.join(i for _, i in lst)))
         if not body:
